@@ -280,9 +280,11 @@ def compileSymbol (n : String) (sym : Option String) : M Nat := do
         return iret
       else
         let q ← lookup n
-        -- the return bit is re-mapped onto an existing qubit; if that is an argument qubit the
-        -- output shares a qubit with an input
-        if q < (← get).inputs.length then event "retAliasesInput"
+        -- an alias of an argument qubit is copied like the argument itself
+        if q < (← get).inputs.length then
+          let iret ← addQubit s
+          cx q iret
+          return iret
         return q
   | none => pure ()
   match dictGet? (← getQC).qmap n with
